@@ -21,3 +21,5 @@ def run(ctx):
     run_kernels(ctx, ["K0", "K15", "K14", "K10", "K1"], "C03")
     k17_entry(ctx, "C03")
     order_independence_rule(ctx, "C03.order-independence")
+    from ..rules_misc import collect_walk_effects, consistent_equality_rule
+    consistent_equality_rule(ctx, "C03.one-equality", collect_walk_effects(ctx))
